@@ -215,7 +215,12 @@ def check_case(case):
     if case.get('select') is not None:
         kw['submodels'] = list(case['select'])
     before = {sid: snapshot.snapshot(m) for sid, m in subs.items()}
-    got = attempt(linker.solve_t, t, **kw)
+    if case.get('via_solve'):
+        # the multi-period entry point restricted to the one period: every option has to be forwarded to solve_t
+        got = attempt(linker.solve, start=T, end=T, **kw)
+        res.tag('entry:solve(start=end)')
+    else:
+        got = attempt(linker.solve_t, t, **kw)
     exp = ref_linker(case, n)
     ids = [s['id'] for s in case['subs']]
     selected = case.get('select') if case.get('select') is not None else ids
@@ -232,6 +237,12 @@ def check_case(case):
                                                             ('selection' if case.get('select') is not None else 'general'))
     detail = f'subs={case["subs"]} select={case.get("select")} linker_script={case.get("linker_script")} t={t} {SC.opts_text(opts)}'
     returned, exc, cause = SC.outcome_of(got)
+    if case.get('via_solve') and exc is None:
+        labels_, idx_, flags_ = returned
+        if list(labels_) != [T] or list(idx_) != [T] or len(flags_) != 1:
+            res.fail(f'linker/{cls}/solve-triple', f'{detail}: solve(start={T}, end={T}) returned {returned!r}')
+            return res
+        returned = flags_[0]
     if exc != exp['exc']:
         res.fail(f'linker/{cls}/exception-type', f'{detail}: fsic {got!r}, reference exc={exp["exc"]} returned={exp["returned"]}')
         return res
@@ -268,6 +279,17 @@ TOKS = ['same', ['move', 0.125], ['move', 0.25], ['move', 0.5]]   # tol = 0.25: 
 
 
 def gen_lattice(bound):
+    def gen():
+        for i, case in enumerate(_gen_lattice(bound)()):
+            yield case
+            # the same case through linker.solve(start=t, end=t): selections and offsets always, the lattice every 7th
+            if case['subs'] and all(not sp.get('span') for sp in case['subs']) and \
+                    (case.get('select') is not None or case['opts'].get('offset') or i % 7 == 0):
+                yield dict(case, via_solve=True)
+    return gen
+
+
+def _gen_lattice(bound):
     def gen():
         tol = 0.25
         for max_iter in range(0, bound + 1):
